@@ -407,6 +407,15 @@ class C21(Prop):
                     if (K, lp) not in created:
                         return ("never-registered", f"after op {t} {op}: {p} reported at {it}, never registered there")
                     if direct.get((K, lp), 0) > max(created[(K, lp)], revived.get((K, lp), 0)):
+                        # "the source location chosen for a transfer is always a valid primary copy": when one of
+                        # the queries that follow (before the next state change) is a get_source_location that hands
+                        # out exactly this invalidated copy, that is the sharper statement of the failure
+                        for op2, ob2 in zip(c["ops"][t:], o["ops"][t:]):
+                            if op2[0] in ("reg", "rel", "inv"):
+                                break
+                            if op2[0] == "src" and ob2.get("item") == it:
+                                return ("source-valid", f"{op2}: get_source_location returns {it}, a copy invalidated "
+                                                        f"at op {direct[(K, lp)]} and not registered since")
                         return ("reports-invalidated", f"after op {t} {op}: {p} reported at {it}, invalidated at op "
                                                        f"{direct[(K, lp)]} and not registered since")
             # completeness
@@ -530,7 +539,7 @@ class C21(Prop):
         return False
 
     def signature(self, c, o, clause):
-        if clause == "reports-invalidated" or clause.startswith("raises-RecursionError"):
+        if clause in ("reports-invalidated", "source-valid") or clause.startswith("raises-RecursionError"):
             return f"{clause}/{'dupreg' if self._dupreg(c) else 'nodup'}"
         return f"{clause}/{self._class(c)}"
 
